@@ -207,7 +207,7 @@ def showFates (bs : List Bool) : String :=
 
 /-- The model's output line. -/
 def render (op : Op) : String :=
-  let lf := life op.cfg op.cfg2 op.re op.force op.tx op.st
+  let lf := life op.cfg op.cfg2 op.re op.force op.tx op.st op.st op.st
   let gov1 := s!"gov={showFates (applyGov op.cfg0 op.gov).2} cfg={showCfg op.cfg} "
   let gov2 := match lf.recheck with
     | none => " gov2=- cfg2=-"
